@@ -13,7 +13,7 @@ import itertools
 from .. import core, bfs
 
 PROPERTY = 'C09'
-VACUITY = dict(need_ok=['call'], min_outcomes=40)
+VACUITY = dict(need_ok=['call', 'first-use'], min_outcomes=40)
 
 OPTS = [(l, b, m) for l in (False, True) for b in (False, True) for m in ('saturate', 'overflow')]
 
@@ -44,6 +44,13 @@ CALLS = [
     ('a-addi', "AR(bitstring.Array('u8', [1]) + bitstring.Array('i8', [-1]))"), ('a-u8', "AR(bitstring.Array('u8', [1, 2]))"),
     # Arrays built from strings (initializer and trailing_bits), returned un-canonicalised so that MUTATE can reach them
     ('a-trail', "bitstring.Array('uint8', trailing_bits='0x0a0b')"), ('a-init-str', "bitstring.Array('uint4', bitstring.Bits('0x3a5'))"),
+    # values that compare (and hash) equal but encode differently: a memo keyed on the value would conflate them
+    ('c-f32+0', "bitstring.Bits(float=0.0, length=32)"), ('c-f32-0', "bitstring.Bits(float=-0.0, length=32)"),
+    ('c-f16-0str', "bitstring.BitArray('float16=-0.0')"), ('c-f16+0str', "bitstring.BitArray('float16=0.0')"),
+    ('p-f64-0', "bitstring.pack('floatle64', -0.0)"), ('p-f64+0', "bitstring.pack('floatle64', 0.0)"),
+    # auto-scaling reads a lazily built class-level table
+    ('a-auto-e3m2', "bitstring.Array(bitstring.Dtype('e3m2mxfp', scale='auto'), [100.0, 2.0]).tolist()"),
+    ('a-auto-e5m2', "bitstring.Array(bitstring.Dtype('e5m2mxfp', scale='auto'), [1e6, 2.0]).tolist()"),
     ('a-trail2', "bitstring.Array('uint4', [1], trailing_bits='0b1')"), ('c-0a0b', "bitstring.Bits('0x0a0b')"), ('c-0b1', "bitstring.ConstBitStream('0b1')"),
 ]
 CALL_SRC = dict(CALLS)
@@ -64,15 +71,19 @@ def describe(tier):
     return dict(bounds=dict(calls=len(CALLS), option_pairs='all (o1, o2) differing in at most one option (32 pairs)' if q else 'all 64 pairs',
                             interposed=['nothing'] + MUTATIONS + [f'FLOOD {k} with maxsize+1 fresh keys' for k in FLOODS],
                             shape='SET o1; CALL A; X; SET o2; CALL B' + ('' if q else '; and SET o1; A; SET o2; B; SET o3; C over a 14-call core'),
+                            first_use='SET o1; CALL A as the first call of a pristine process; then CLEAR-CACHES; SET o2; CALL B for all 8 x 8 option pairs and all B',
                             cache_maxsize='read from cache_info() at run time'),
                 rule='every history of the stated shape over the alphabets is run once on cold caches; the final call is compared with the cold table '
-                     '(same call, caches cleared, same options); non-trivial = B is preceded by a successful A that differs from B or by an option change / '
+                     '(same call and options evaluated as the only call of a forked pristine process); non-trivial = B is preceded by a successful A that differs from B or by an option change / '
                      'mutation / flood',
-                assumptions=['the cold table is computed by the same implementation on cold caches: absolute values are judged by other checks',
+                assumptions=['the cold table is computed by the same implementation in a process that has made no other call: absolute values are judged by other checks',
+                             'histories of the main pass share a process (LRU caches cleared in between); state kept outside the LRU caches is covered by the first-use histories',
                              'options are reset and every cache cleared before each history'])
 
 
 def shards(tier, seed):
+    if not _cold:
+        precompute(core.import_bitstring(), dict(bitstring=core.import_bitstring(), DT=DT, AR=AR))
     out = []
     for ia in range(len(CALLS)):
         out.append(dict(kind='pairs', a=ia))
@@ -189,8 +200,11 @@ def run_shard(shard, acc):
     opt_pairs = [(o1, o2) for o1 in OPTS for o2 in OPTS if (not q) or sum(x != y for x, y in zip(o1, o2)) <= 1]
     inter = [('none', None)] + [('mutate', m) for m in MUTATIONS] + [('flood', k) for k in FLOODS]
     ida, asrc = CALLS[shard['a']]
+    if not _cold:
+        precompute(bs, ns0)       # normally inherited from the parent (shards()); a stand-alone shard replay computes it here
     with core.watchdog(3000):
         if shard['kind'] == 'pairs':
+            first_use(bs, acc, ns0, ida, ms)
             for (idb, bsrc) in CALLS:
                 for (o1, o2) in opt_pairs:
                     for xk, xv in inter:
@@ -209,6 +223,67 @@ def run_shard(shard, acc):
                     hist = [('set', o1), ('call', ida), ('set', o2), ('call', idb), ('set', o3), ('call', idc)]
                     run_history(bs, acc, ns0, hist, ms)
     core.reset_world()
+
+
+def _in_fork(fn):
+    """Run fn() in a forked copy of this process and return its (picklable) result."""
+    import os
+    import pickle
+    r, w = os.pipe()
+    pid = os.fork()
+    if pid == 0:
+        code = 1
+        try:
+            os.close(r)
+            data = pickle.dumps(fn())
+            with os.fdopen(w, 'wb') as f:
+                f.write(data)
+            code = 0
+        finally:
+            os._exit(code)
+    os.close(w)
+    with os.fdopen(r, 'rb') as f:
+        data = f.read()
+    _, st = os.waitpid(pid, 0)
+    if st != 0 or not data:
+        raise RuntimeError(f"forked evaluation failed (status {st})")
+    return pickle.loads(data)
+
+
+def first_use(bs, acc, ns0, ida, ms):
+    """Histories  SET o1; CALL A  made as the very first call of a process (a forked copy of this still-pristine one), followed by
+    every  CLEAR-CACHES; SET o2; CALL B : whatever A built lazily outside the LRU caches (module- or class-level tables) under o1
+    is what B then reads.  The oracle is the pristine cold table."""
+    warm = [q for q, c in core.find_caches() if c.cache_info().currsize]
+    if warm:
+        raise RuntimeError(f"first-use histories need a pristine process: {warm}")
+
+    def child(o1):
+        bad = []
+        n = 0
+        core.set_options(*o1)
+        call(dict(ns0), CALL_SRC[ida])
+        for o2 in OPTS:
+            for idb, bsrc in CALLS:
+                core.clear_caches()
+                core.set_options(*o2)
+                got = call(dict(ns0), bsrc)
+                n += 1
+                if got != _cold[(idb, o2)]:
+                    bad.append((o2, idb, got))
+        return n, bad
+
+    for o1 in OPTS:
+        n, bad = _in_fork(lambda: child(o1))
+        acc.step('call', n, nontrivial=n, ok=n)
+        acc.step('first-use', n, nontrivial=n, ok=n)
+        acc.state(('first-use', ida, o1))
+        for o2, idb, got in bad:
+            hist = [('set', o1), ('call', ida), ('cold', None), ('set', o2), ('call', idb)]
+            exp = _cold[(idb, o2)]
+            acc.violation('call', 'value' if got[0] == exp[0] else 'exc',
+                          dict(history=[(a, list(b) if isinstance(b, tuple) else b) for a, b in hist], call=idb, options=list(o2), group=f"{idb}|first-use"),
+                          snippet(hist, ms, exp), exp, got)
 
 
 def run_history(bs, acc, ns0, hist, ms):
@@ -234,7 +309,7 @@ def run_history(bs, acc, ns0, hist, ms):
                 acc.violation('call', 'value' if got[0] == exp[0] else 'exc',
                               dict(history=[(a, list(b) if isinstance(b, tuple) else b) for a, b in hist[:i + 1]], call=v, options=list(opts),
                                    group=f"{v}|{classify(hist[:i + 1])}"),
-                              snippet(hist[:i + 1], ms), exp, got)
+                              snippet(hist[:i + 1], ms, exp), exp, got)
                 return
             made.append(v)
             trivial = False
@@ -255,23 +330,41 @@ def run_history(bs, acc, ns0, hist, ms):
 
 
 def cold_lookup(bs, ns0, cid, opts, ns):
-    """Cold value of a call; computing it must not disturb the warm caches of the history being run, so it is
-    precomputed for every (call, options) before the first history of the shard."""
-    k = (cid, opts)
-    if k not in _cold:
-        precompute(bs, ns0)
-    return _cold[k]
+    """Cold value of a call (see precompute)."""
+    return _cold[(cid, opts)]
 
 
 def precompute(bs, ns0):
-    saved = core.get_options()
+    """The cold table: every (call, options) evaluated in its own forked copy of this process, taken while the process is
+    pristine - bitstring imported, no call made yet - so that neither an LRU cache nor a lazily built module- or class-level
+    table has been touched by any earlier call.  Must run before the first history of the process."""
+    import os
+    import pickle
+    warm = [q for q, c in core.find_caches() if c.cache_info().currsize]
+    if warm:
+        raise RuntimeError(f"cold table requested in a process that is not pristine: {warm}")
     for cid, src in CALLS:
         for o in OPTS:
-            core.clear_caches()
-            core.set_options(*o)
-            _cold[(cid, o)] = call(dict(ns0), src)
-    core.clear_caches()
-    core.set_options(*saved)
+            r, w = os.pipe()
+            pid = os.fork()
+            if pid == 0:
+                code = 1
+                try:
+                    os.close(r)
+                    core.set_options(*o)
+                    data = pickle.dumps(call(dict(ns0), src))
+                    with os.fdopen(w, 'wb') as f:
+                        f.write(data)
+                    code = 0
+                finally:
+                    os._exit(code)
+            os.close(w)
+            with os.fdopen(r, 'rb') as f:
+                data = f.read()
+            _, st = os.waitpid(pid, 0)
+            if st != 0 or not data:
+                raise RuntimeError(f"cold evaluation of {cid} under {o} failed (status {st})")
+            _cold[(cid, o)] = pickle.loads(data)
 
 
 def classify(hist):
@@ -285,7 +378,7 @@ def classify(hist):
     return tag
 
 
-def snippet(hist, ms):
+def snippet(hist, ms, exp):
     lines = ["import bitstring", HELPERS_SRC]
     last_call = None
     opts = OPTS[0]
@@ -304,8 +397,9 @@ def snippet(hist, ms):
             lines += ["try:", f"    {v}", "except Exception:", "    pass"]
         elif k == 'flood':
             lines.append(FLOODS[v].format(n=ms + 1))
+        elif k == 'cold':
+            lines.append("COLD()")
     lines.append(f"warm = OBS(lambda: {CALL_SRC[last_call]})")
-    lines.append("COLD()")
-    lines.append(f"cold = OBS(lambda: {CALL_SRC[last_call]})")
+    lines.append(f"cold = {exp!r}      # the same call in a process that has made no other call, same options")
     lines.append("assert warm == cold, (warm, cold)")
     return '\n'.join(lines)
